@@ -16,6 +16,7 @@ import RioModel.Proofs.TreeDistinct
 import RioModel.Proofs.TreeUnique
 import RioModel.Proofs.TreeModify
 import RioModel.Proofs.TreeTrace
+import RioModel.Proofs.TreeCache
 
 set_option linter.unusedSimpArgs false
 set_option linter.unusedVariables false
@@ -380,6 +381,27 @@ theorem pt_mem_trace (s : PathTState) (q : Req) (r : Route) :
         Trace.rawRoutes_mk, TInfo.routes, List.append_nil]
       exact hr
 
+/-! ### cache -/
+
+/-- `regex_tree_rule.cache(limit, Some(level))` returns normally (no budget underflow), hands back at
+most the budget it got, and changes nothing but compiled flags. -/
+theorem pathT_cache_ok (limit level : Nat) (s : PathTState) :
+    ∃ t' n, Tree.treeCache T.engine s.tree limit (some level) = some (t', n) ∧
+      PathT.cache T limit level s = ({ s with tree := t' }, n) ∧ n ≤ limit ∧ t'.strip = s.tree.strip := by
+  obtain ⟨t', n, h1, hs, hn⟩ := treeCache_spec T.engine s.tree limit (some level)
+  exact ⟨t', n, h1, by simp [PathT.cache, h1], hn, hs⟩
+
+theorem ptrepr_cache (s : PathTState) (L : List Route) (limit level : Nat) (h : PTRepr T Good s L) :
+    PTRepr T Good (PathT.cache T limit level s).1 L := by
+  obtain ⟨t', n, _, heq, _, hs⟩ := pathT_cache_ok T limit level s
+  rw [heq]
+  have hc : t'.contents = s.tree.contents := by rw [← contents_strip, hs, contents_strip]
+  have hi : t'.inv T.icPath = s.tree.inv T.icPath := by rw [← inv_strip, hs, inv_strip]
+  refine ⟨h.len, by rw [hi]; exact h.inv, by intro e he; rw [hc] at he; exact h.dom e he, ?_, h.statics⟩
+  unfold entriesOf
+  simp only [hc]
+  exact h.tree
+
 /-- `PathAndQueryMatcher` over the real tree satisfies the layer laws; its `sat` is the path
 trigger of the induced environment; routes may be inserted when their pattern is in C08's domain. -/
 def pathTLaws (hPS : PrefixSound T.engine Good) : MLaws (pathTOps T) where
@@ -420,6 +442,12 @@ def pathTLaws (hPS : PrefixSound T.engine Good) : MLaws (pathTOps T) where
     show 0 < m.count
     omega
   repr_batch := fun m L ids h => ptrepr_batch T Good m L ids h
+  repr_cache := fun m L limit level h => ptrepr_cache T Good m L limit level h
+  cache_le := by
+    intro m limit level
+    obtain ⟨t', n, _, heq, hn, _⟩ := pathT_cache_ok T limit level m
+    show (PathT.cache T limit level m).2 ≤ limit
+    rw [heq]; exact hn
   mem_match := fun m L q r h _ => pt_mem_match T Good hPS m L h q r
   nodup_match := fun m L q h _ => pt_nodup_match T Good hPS m L h q
   mem_trace := fun m L q r _ _ => pt_mem_trace T m q r
